@@ -1,11 +1,11 @@
 (* C06 - bridge, part A: facts about the GENERATED model of the code (build/C06/Iterators_gen.v,
    regenerated from kawin/solver/Iterators.py and Solver.py on every run) that do not involve the
-   Runge-Kutta stage times: the Euler iterator, the solver wrappers, and the agreement of the
-   generated RK4 with the classical scheme on AUTONOMOUS right-hand sides (which holds whatever time
-   the stages are evaluated at, and is why the one integrator test of kawin cannot see a stage-time
-   defect).  Compiled by the check only (logical path KawinRun), never by the static make. *)
+   RK4 iterator: the Euler iterator and the solver wrappers.  Also the definitions and tactics shared
+   by the other bridge files.  Compiled by the check only (logical path KawinRun), never by the
+   static make. *)
 From Coq Require Import Reals QArith Qreals List Lra.
-Require Import Kawin.Common.Ops Kawin.C06.Model Kawin.C06.Proofs.
+From Coquelicot Require Import Coquelicot.
+Require Import Kawin.Common.Ops Kawin.C06.Model Kawin.C06.Proofs Kawin.C06.Analysis.
 Require Import KawinRun.Iterators_gen.
 Import ListNotations.
 Open Scope R_scope.
@@ -25,7 +25,8 @@ Ltac gen_unfold :=
   unfold Euler_gen, RK4_gen, ExplicitEulerIterator_gen, RK4Iterator_gen, plain_update, RK4_doc, Euler_doc;
   cbv zeta; cbn [T Rops].
 
-Ltac pair_eq := first [ reflexivity | f_equal; first [ reflexivity | rk_eq ] ].
+(* a failing comparison must fail quickly: the check has a time budget *)
+Ltac pair_eq := timeout 120 (first [ reflexivity | f_equal; first [ reflexivity | rk_eq ] ]).
 
 Section BridgeA.
 Variable VS : vspace.
@@ -35,11 +36,6 @@ Proof. gen_unfold. pair_eq. Qed.
 
 Lemma euler_gen_is_rk f getdt t x : Euler_gen VS f getdt t x = (rk_step VS f euler1 t x (getdt t x), getdt t x).
 Proof. rewrite euler_gen_is_doc, euler_doc_is_rk. reflexivity. Qed.
-
-(* autonomous right-hand sides: generated RK4 = classical RK4, independently of the stage times *)
-Lemma gen_eq_classic_autonomous (g : VS -> VS) getdt t x :
-  RK4_gen VS (fun _ y => g y) getdt t x = (rk_step VS (fun _ y => g y) classic4 t x (getdt t x), getdt t x).
-Proof. rewrite <- rk4_doc_is_rk. gen_unfold. pair_eq. Qed.
 
 (* ---- consequences for the generated Euler iterator ------------------------------------------- *)
 Lemma euler_gen_affine_system (L : VS -> VS) (g0 g1 : VS) getdt t y :
@@ -96,10 +92,21 @@ Lemma euler_gen_linear_forced l a0 a1 a2 a3 h t y :
   taylor y (firstn 2 (lf_derivs l a0 a1 a2 a3 t y)) h - h ^ 2 * (nth 1 (lf_derivs l a0 a1 a2 a3 t y) 0 / 2).
 Proof. unfold Euler_R. rewrite euler_gen_is_doc. cbn [fst]. apply euler_doc_linear_forced. Qed.
 
-(* the scheme the generated RK4 reduces to on autonomous problems is of order four *)
-Lemma gen_autonomous_order_4 :
-  exists tab, order_conditions tab trees_le4 = true /\
-    forall (VS : vspace) (g : VS -> VS) getdt t x,
-      RK4_gen VS (fun _ y => g y) getdt t x = (rk_step VS (fun _ y => g y) tab t x (getdt t x), getdt t x).
-Proof. exists classic4. split; [exact classic4_order_4|]. intros. apply gen_eq_classic_autonomous. Qed.
+
+Lemma euler_gen_ty c h t y :
+  Euler_R (fun t y => c * t * y) h t y =
+  taylor y (firstn 2 (ty_derivs c t y)) h - h ^ 2 * (nth 1 (ty_derivs c t y) 0 / 2).
+Proof. unfold Euler_R. rewrite euler_gen_is_doc. cbn [fst]. apply euler_doc_ty. Qed.
+
+(* local truncation error against true solutions (Analysis.v, Coquelicot) *)
+Lemma Euler_R_is_doc f h t y : Euler_R f h t y = Euler_doc Rvs f t y h.
+Proof. unfold Euler_R. rewrite euler_gen_is_doc. reflexivity. Qed.
+
+Lemma euler_gen_local_error (f : R -> R -> R) (Y : R -> R) t h M :
+  0 < h ->
+  (forall s, t <= s <= t + h -> is_derive Y s (f s (Y s))) ->
+  (forall s, t <= s <= t + h -> ex_derive_n Y 2 s) ->
+  (forall s, t <= s <= t + h -> Rabs (Derive_n Y 2 s) <= M) ->
+  Rabs (Y (t + h) - Euler_R f h t (Y t)) <= M / 2 * h ^ 2.
+Proof. intros. rewrite Euler_R_is_doc. apply euler_local_error_bound; assumption. Qed.
 
